@@ -118,7 +118,9 @@ func c10Generate(thorough bool) []c10Case {
 		}
 	}
 	red3 := []string{"", "INTEGER", "COLLATE NOCASE", "INTEGER PRIMARY KEY", "UNIQUE", "PRIMARY KEY DESC", "REFERENCES o (x) DEFERRABLE"}
-	tc3 := []string{"PRIMARY KEY (c, a)", "PRIMARY KEY (b)", "UNIQUE (c)", "UNIQUE (a, c DESC)", "UNIQUE (c, b, a)", "UNIQUE (a)", "PRIMARY KEY (a)"}
+	tc3 := []string{"PRIMARY KEY (c, a)", "PRIMARY KEY (b)", "UNIQUE (c)", "UNIQUE (a, c DESC)", "UNIQUE (c, b, a)", "UNIQUE (a)", "PRIMARY KEY (a)",
+		// a key column named again with other columns in between
+		"PRIMARY KEY (a, b, a)", "PRIMARY KEY (c, a, c, b)", "UNIQUE (a, b, a)", "PRIMARY KEY (a, b, a COLLATE NOCASE)"}
 	tc3Lists := [][]string{{}}
 	for _, t := range tc3 {
 		tc3Lists = append(tc3Lists, []string{t})
